@@ -865,11 +865,9 @@ impl<'a> Ref<'a> {
                     let Some(f) = stack.last_mut() else {
                         // rssl evaluates the condition before it looks at the stack
                         let plain = matches!(eval_condition(&self.macros, args), CondRes::Value(_));
-                        return Err(if is_main {
-                            Stop::Reject("unmatched-elif", if plain { "ElseNotMatched" } else { "" })
-                        } else {
-                            Stop::Reject("unmatched-in-include", "")
-                        });
+                        // every file's conditionals balance by themselves: the same variant in an included file
+                        let want = if plain { "ElseNotMatched" } else { "" };
+                        return Err(Stop::Reject(if is_main { "unmatched-elif" } else { "unmatched-in-include" }, want));
                     };
                     if f.else_seen {
                         return Err(Stop::Reject("elif-after-else", ""));
@@ -897,11 +895,8 @@ impl<'a> Ref<'a> {
                 }
                 "else" => {
                     let Some(f) = stack.last_mut() else {
-                        return Err(if is_main {
-                            Stop::Reject("unmatched-else", if args.is_empty() { "ElseNotMatched" } else { "" })
-                        } else {
-                            Stop::Reject("unmatched-in-include", "")
-                        });
+                        let want = if args.is_empty() { "ElseNotMatched" } else { "" };
+                        return Err(Stop::Reject(if is_main { "unmatched-else" } else { "unmatched-in-include" }, want));
                     };
                     if f.else_seen {
                         return Err(Stop::Reject("else-after-else", ""));
@@ -921,11 +916,8 @@ impl<'a> Ref<'a> {
                 }
                 "endif" => {
                     let Some(f) = stack.last() else {
-                        return Err(if is_main {
-                            Stop::Reject("unmatched-endif", if args.is_empty() { "EndIfNotMatched" } else { "" })
-                        } else {
-                            Stop::Reject("unmatched-in-include", "")
-                        });
+                        let want = if args.is_empty() { "EndIfNotMatched" } else { "" };
+                        return Err(Stop::Reject(if is_main { "unmatched-endif" } else { "unmatched-in-include" }, want));
                     };
                     if !args.is_empty() {
                         if f.parent_active {
@@ -1016,17 +1008,20 @@ impl<'a> Ref<'a> {
         }
         self.flush(&mut pending)?;
         if !stack.is_empty() {
-            return Err(if is_main {
-                Stop::Reject("unterminated", "ConditionChainNotFinished")
-            } else {
-                Stop::Reject("unterminated-in-include", "")
-            });
+            return Err(Stop::Reject(
+                if is_main { "unterminated" } else { "unterminated-in-include" },
+                "ConditionChainNotFinished",
+            ));
         }
         Ok(())
     }
 
     pub fn run(mut self, defs: &[(String, String)]) -> RefResult {
         for (n, v) in defs {
+            if n.contains('\n') || v.contains('\n') {
+                // not expressible as a C command-line define
+                return RefResult { expected: Expected::Skip("API define with a line break".into()), hints: self.hints, stats: self.stats };
+            }
             let toks = pp_tokens(&format!("{} {}", n, v));
             if toks.iter().any(rssl_unlexable) {
                 return RefResult { expected: Expected::Skip("API define outside rssl's lexical grammar".into()), hints: self.hints, stats: self.stats };
